@@ -71,6 +71,9 @@ Definition dispatch (op : string) (args : list tree) : tree :=
                                           t_opt L (basetype Ld x); t_opt L (keytype x); t_bool (is_search Ld x);
                                           t_bool (is_leaf Ld x); L (as_query x)])
   | "copy", [s] => with_sid s (fun x => t_out t_sid (sid_copy Ld x))
+  | "eval_repr", [s] => with_sid s (fun x =>
+      if mem_c "'" (uri x) || mem_c "\" (uri x) || mem_c "010" (uri x) || mem_c "013" (uri x)
+      then N [L "raise"; L "Unmodelled"] else t_out t_sid (sid_copy Ld x))
   | "get_as", [s; L k] => with_sid s (fun x => t_out t_sid (get_as Ld x k))
   | "parent", [s] => with_sid s (fun x => t_out t_sid (parent Ld x))
   | "div", [s; L v] => with_sid s (fun x => t_out t_sid (sid_div Ld x v))
